@@ -252,6 +252,24 @@ func scenario(p params, bounds []int) *vexp.Scenario {
 						x.Fail("recovers", "%s was sent after the peer became reachable again but never arrived (received %v, dead letters %v, net %v)", s, atB, dead, nw.Log)
 					}
 				}
+				if p.fault == "refuse" {
+					// the retry budget is per message and exact: the first p.j dials are refused, every message may
+					// dial limit+1 times, and a message that got through leaves a connection for the ones behind it
+					r := p.j
+					for _, s := range sent[:p.n] {
+						if r >= p.limit+1 {
+							r -= p.limit + 1
+							if seen[s] {
+								x.Fail("harness", "%s arrived although all %d attempts of its budget were refused", s, p.limit+1)
+							}
+							continue // dead letter expected (checked below for the first one, "dead-letter-means-not-delivered" for all)
+						}
+						r = 0
+						if !seen[s] {
+							x.Fail("dead-letter-only-after-the-configured-attempts", "%s had %d reconnect attempts left when the peer accepted again, but it never arrived (received %v, dead letters %v, net %v)", s, p.limit+1, atB, dead, nw.Log)
+						}
+					}
+				}
 				if p.fault == "refuse" && p.j > p.limit {
 					// every attempt of the first burst's first message was refused: it must be a dead letter
 					if dead[sent[0]] != 1 && !seen[sent[0]] {
